@@ -689,6 +689,9 @@ class Interp:
                 return self.w_method(fi)
             v, owner = self.src.find_class_attr(name, attr)
             if v is not None:
+                if isinstance(v, (ast.List, ast.Dict, ast.Set)):
+                    # a mutable class attribute: ONE object shared by every instance and every call
+                    return self.global_object('%s.%s' % (owner, attr), 'list' if isinstance(v, ast.List) else 'dict')
                 try:
                     return ast.literal_eval(v)
                 except Exception:
@@ -698,6 +701,30 @@ class Interp:
                     return SRef(self.w.strobj('<itertools.count %s.%s>' % (owner, attr)), 'counter')
                 raise Unsupported('class attribute %s.%s is not a literal' % (name, attr))
         raise Unsupported('class attribute %s.%s' % (cls.name, attr))
+
+    def global_object(self, name, pytype):
+        """An object created at import time (mutable class attribute, mutable default argument): shared between all
+        instances and calls, so its contents are arbitrary here and any user code (handlers) may change them."""
+        c = self.c
+        lt = self.w.local_types.get(('global', name))
+        r = SRef(self.w.strobj('<shared %s>' % name), lt or pytype)
+        regs = c.pyghost.setdefault('globals', {})
+        if name not in regs:
+            regs[name] = r
+            if B.base_type(r.pytype) in ('list', 'deque'):
+                c.assume(c.hget(r, '$len') >= 0)
+                if B.base_type(r.pytype) == 'deque':
+                    c.assume(z3.And(c.hget(r, '$maxlen') >= 1, c.hget(r, '$len') <= c.hget(r, '$maxlen')))
+        return r
+
+    def havoc_globals(self):
+        c = self.c
+        for name, r in c.pyghost.get('globals', {}).items():
+            if B.base_type(r.pytype) in ('list', 'deque'):
+                c.heap['$items'] = z3.Store(c.harr('$items'), r.e, c.fresh('shared_items', B.IntArr))
+                n = c.fresh('shared_len', z3.IntSort())
+                c.heap['$len'] = z3.Store(c.harr('$len'), r.e, n)
+                c.assume(n >= 0)
 
     def w_method(self, fi):
         """The function object stored in the class dict: decorators applied (real wrapper source)."""
@@ -904,6 +931,16 @@ class Interp:
             v, _ = self.src.find_class_attr(fn.info.cls, d.id)
             if v is not None:
                 return ast.literal_eval(v)
+        if isinstance(d, (ast.Call, ast.List, ast.Dict)):
+            # a default evaluated once at definition time: one object shared by all calls
+            kind = 'list'
+            if isinstance(d, ast.Dict):
+                kind = 'dict'
+            if isinstance(d, ast.Call) and isinstance(d.func, ast.Name):
+                kind = {'deque': 'deque', 'list': 'list', 'dict': 'dict'}.get(d.func.id)
+                if kind is None:
+                    raise Unsupported('non-literal default %s(...)' % d.func.id)
+            return self.global_object('default of %s' % fn.info.path, kind)
         raise Unsupported('non-literal default')
 
 
